@@ -2064,7 +2064,10 @@ int yr_re_exec(
     input += input_incr;
     bytes_matched += character_size;
 
-    if (flags & RE_FLAGS_SCAN && bytes_matched < max_bytes_matched)
+    // In scan mode every position of the input is a possible start, including
+    // the position after the last byte (an expression matching the empty
+    // string, like /x*$/, matches there).
+    if (flags & RE_FLAGS_SCAN && bytes_matched <= max_bytes_matched)
     {
       FAIL_ON_ERROR_WITH_CLEANUP(
           _yr_re_fiber_create(&context->re_fiber_pool, &fiber),
